@@ -119,6 +119,27 @@ def run(ctx):
                 state[y] = new
                 work.append(y)
     r1.check(not overflow, "row loop:append bound", "no path appends more than four entries for one row", w2j.loc(loop))
+    # the repeat-count helper node: needed unless the count cell is exactly one ${reference} (jr:count must be a node
+    # path; an expression, even one containing references, needs its own calculated node)
+    for nid, ev in events.items():
+        if ev != "C":
+            continue
+        st = g.nodes[nid].stmt
+        gs = [t for t, pol in guards_of(st, stop=loop) if pol]
+        guard = gs[-1] if gs else None
+        if guard is None:
+            continue
+        names = {n.id for n in ast.walk(guard) if isinstance(n, ast.Name) and isinstance(n.ctx, ast.Load)}
+        locals_ = {n for n in names if w2j.module.imports.get(n) is None and n not in w2j.module.functions and n not in w2j.module.assigns}
+        for text, want in (("3", True), ("${n}", False), ("${n} + 1", True), ("if(${m} > 5, 5, ${m})", True), ("count(${r})", True)):
+            itg = ctx.interp("C04.R1")
+            itg.reset([])
+            try:
+                got = itg.truth(itg.eval(guard, {nm: text for nm in locals_}, w2j.module))
+            except Raised as e:
+                got = f"raises {e.exc_name}"
+            r1.check(got is want, f"row loop:count helper guard[{text!r}]", f"a `<repeat>_count` node is {'created' if want else 'not needed'} for this repeat_count cell", w2j.loc(st),
+                     why_fail=f"guard `{norm(guard)[:60]}` evaluates to {got}")
     allowed = {("R",), ("M",), ("C", "R"), ("L", "R"), ("C", "L", "R"), ("H", "R"), ("R", "O"), ("H", "R", "O")}
     skip_markers = ("aliases.yes_no.get(disabled)", "not row", "not (constants.NAME in row or constants.LABEL in row)", "settings_type", "end_control_parse")
     # per exit edge
@@ -280,6 +301,13 @@ def run(ctx):
         it.reset([])
         cls = it.call_function(gq, [typ, qtd], {}, None, gq.node)
         r4.check(isinstance(cls, ClassVal) and cls.ci.name == want, f"class of {typ!r}", f"is {want}", gq.loc(), why_fail=f"got {cls!r}")
+    # legacy spellings of the types the row loop handles specially (parameters -> attributes) are rewritten to the
+    # canonical type before the loop looks at them; a spelling that keeps its own table entry but is no longer
+    # rewritten converts with the right control and silently loses its parameters
+    tam = ctx.consts.get("pyxform.aliases", "_type_alias_map", "C04.R4")
+    for legacy, canon in (("image", "photo"), ("add image prompt", "photo"), ("add photo prompt", "photo"), ("add audio prompt", "audio")):
+        r4.check(tam.get(legacy) == canon and qtd.get(canon) is not None, f"type alias {legacy!r}", f"is rewritten to {canon!r}, the spelling the parameter handling is keyed on", "pyxform/aliases.py",
+                 why_fail=f"got {tam.get(legacy)!r}")
     rules.append(r4)
 
     # ------------------------------------------------------------------ R5
